@@ -143,31 +143,6 @@ let model_obs (ts : tok list) : string =
     | RErr -> "ERR" | RCrash -> "PANIC" | RUnsup -> "UNSUP" | RFuel -> "FUEL"
   with Outcome s -> s
 
-(* ---- the model with the suggested repairs of the two known findings applied (used only to
-   attribute a specification failure to a known finding; see checks/c06.py) ----
-   P1 (not-starts-statement): LeftBindingPower returns 0 for an operator without MunchLeft;
-   P2 (semicolon-as-operand): the token stream is split at semicolons before the statement loop. *)
-let patched_entries () =
-  List.map (fun e -> match e.e_led with
-    | LDrop -> { e with e_bp = Z0 }
-    | _ -> e) infix_entries
-
-let rec split_semis (ts : tok list) : tok list list =
-  match ts with
-  | [] -> [[]]
-  | TSemi :: r -> [] :: split_semis r
-  | t :: r -> (match split_semis r with s :: ss -> (t :: s) :: ss | [] -> [[t]])
-
-let patched_obs (p1 : bool) (p2 : bool) (ts : tok list) : string =
-  cur_ents := (if p1 then patched_entries () else infix_entries);
-  let r =
-    if p2 then
-      String.concat " ;; " (List.filter (fun s -> s <> "")
-        (List.map (fun seg -> if seg = [] then "" else model_obs seg) (split_semis ts)))
-    else model_obs ts in
-  cur_ents := infix_entries;
-  r
-
 (* ---- specification side ---- *)
 exception Silent
 
@@ -208,11 +183,5 @@ let () =
       let (ts, rest) = parse_items ws in
       if rest <> [] then failwith ("unbalanced tokens: " ^ body);
       let m = model_obs ts and sp = spec_obs ts in
-      let tag =
-        if sp = "-" || sp = m then ""
-        else if patched_obs true false ts = sp then "not-starts-statement"
-        else if patched_obs false true ts = sp then "semicolon-as-operand"
-        else if patched_obs true true ts = sp then "not-starts-statement+semicolon-as-operand"
-        else "" in
-      Printf.printf "%s\t%s\t%s\t%s\n" id (esc_final m) (esc_final sp) tag
+      Printf.printf "%s\t%s\t%s\n" id (esc_final m) (esc_final sp)
     | _ -> failwith ("bad line: " ^ line))
